@@ -270,7 +270,8 @@ func c03Decode(c *Ctx) {
 		r.Check(dec != nil, "C03.bit-layout.decode-loop", c.ipos(e.Instr), "decoder = for each word first→last: decoder<<11 | Index(word), starting from 0")
 		// entropy bytes = padded (decoder >> n).Bytes()
 		// (the padding helper is looked through: its result is leftpad(bytes, size), as is the same append written in place)
-		pb, okP := ana.MatchX(c.P, "call<leftpad>(call<(*math/big.Int).Bytes>(obj(alloc<math/big.Int>, maybe(_), maybe(_), call<(*math/big.Int).Rsh>(self, self, conv<uint>($n)))), alt(bin</>($bits, 8), bin<>>>($bits, 3)))", valT)
+		// (the shift in place, or into a fresh big.Int that receives decoder >> n)
+		pb, okP := ana.MatchX(c.P, "call<leftpad>(call<(*math/big.Int).Bytes>(alt(obj(alloc<math/big.Int>, maybe(_), maybe(_), call<(*math/big.Int).Rsh>(self, self, conv<uint>($n))), obj(alloc<math/big.Int>, call<(*math/big.Int).Rsh>(self, obj(alloc<math/big.Int>, maybe(_), maybe(_)), conv<uint>($n))))), alt(bin</>($bits, 8), bin<>>>($bits, 3)))", valT)
 		r.Check(okP && pb["$n"].String() == nT.String(), "C03.checksum-gate.entropy-split", c.ipos(e.Instr), "entropy = pad((decoder >> n).Bytes(), ENT/8)")
 	}
 	r.Floor("C03.floor.decode-success", okRet, 1, "success returns of MnemonicToEntropy")
